@@ -102,11 +102,11 @@ func Bases() []*Schema {
 				obj("Query", fld("a", N("Int"), arg("x", N("Int")).With(du("any", "n", 2))).With(du("any"), du("deprecated")), fld("e", N("En")), fld("u", N("Un")), fld("i", N("If")), fld("s", N("Sc"))).With(du("any", "label", "q")),
 				intf("If", fld("f", N("Int")).With(du("deprecated", "reason", "why not"))).With(du("any")),
 				obj("Ob", fld("f", N("Int"))).Impl("If"),
-				uni("Un", "Ob").With(du("any")),
+				uni("Un", "Ob").With(du("any", "must", 3, "musts", []interface{}{"a", "b"})),
 				{Kind: KEnum, Name: "En", Dirs: []DirUse{du("any")}, Values: []*EnumVal{{Name: "V1", Dirs: []DirUse{du("any", "n", 5)}}, {Name: "V2", Dirs: []DirUse{du("deprecated", "reason", "old")}}}},
 				inp("In", ifld("f", N("Int")).With(du("any"))).With(du("any")),
 				scl("Sc").With(du("any")),
-				dir("any", allLocs, argD("n", N("Int"), 1), argD("label", N("String"), "L").With(du("inner"))),
+				dir("any", allLocs, argD("n", N("Int"), 1), argD("label", N("String"), "L").With(du("inner")), argD("must", NN(N("Int")), 7), argD("musts", NN(L(NN(N("String")))), []interface{}{"m"})),
 				dir("inner", []string{"ARGUMENT_DEFINITION", "INPUT_FIELD_DEFINITION"}),
 			}},
 	}
